@@ -1073,7 +1073,7 @@ def run_checked(ctx):
     thorough = ctx.thorough()
     quick = not thorough
     ctx.mockery()
-    npacked = 150 if thorough else 12
+    npacked = 150 if thorough else 9
     r = ctx.tlc("ConfigTreeWorldMC", "ConfigTreeWorld_gen.cfg", workers=1, timeout=3000,
                 files={"cfg/ConfigTreeWorld_gen.cfg": WORLD_CFG % (ctx.seed, npacked, ctx.tier)})
     if not r.ok:
